@@ -536,21 +536,40 @@ theorem C06_copy_source :
     Generated.CtorCopy.traitDictObjectCtorCopy = Model.CtorCopyAssumed.traitDictObjectCtorCopy := by
   first | rfl | exact ⟨rfl, rfl⟩
 
-/-- **C06_init_is_source.**  `TraitDict.__init__` as an interpreted program
-(`translate/ctorprogdict.py`, `Model/PyLCtorDict.lean`): for every argument
-(`None`, a mapping — anything with `keys`, read through `.items()` — or an
-iterable of pairs), validator and notifier arguments, running the translated
-body on the object `__new__` left gives the modelled constructor, whose contents
-are `TraitDict.init` of the chosen validators: every pair validated key first,
-then value, ordinal threaded, nothing stored if one fails, later duplicate keys
-win.  (`TraitDictObject.__init__` stays tied as statement text: `C06_init_source`.) -/
+/-- **C06_init_is_source.**  `TraitDict.__init__` and `TraitDictObject.__init__`
+as interpreted programs (`translate/ctorprogdict.py`, `Model/PyLCtorDict.lean`;
+the latter run with `super().__init__` bound to the translated former): for
+every argument (`None`, a mapping — anything with `keys`, read through
+`.items()` — or an iterable of pairs), validator and notifier arguments / trait
+and owner, running the translated body on the object `__new__` left gives the
+modelled constructor, whose contents are `TraitDict.init` of the chosen
+validators: every pair validated key first, then value, ordinal threaded,
+nothing stored if one fails, later duplicate keys win — for the trait value with
+its own `_key_validator` / `_value_validator`, i.e. what whole-value assignment
+of a `Dict` trait establishes (`C06_init`, `keys_values_valid_init`); its
+notifier list is `[self.notifier]`, the owner is held by weak reference iff not
+`None`, `name_items` is set iff the trait has an items event. -/
 theorem C06_init_is_source (C : Model.PyLCD.Ctx K V) (a : Model.PyLCD.Arg K V) (kv vv : Option Model.PyLC.VSrc)
-    (ns : Option Model.PyLC.NSrc) :
+    (ns : Option Model.PyLC.NSrc) (t : Option Bool) (owner : Bool) :
     Model.PyLCD.runDictInit Generated.CtorD.traitDictInit C a kv vv ns = Model.PyLCD.dictInit C a kv vv ns ∧
-    (Model.PyLCD.dictInit C a (some .arg) (some .arg) ns).map (·.items) = TraitDict.init C.givenK C.givenV a.items := by
-  refine ⟨Lemmas.PyLCtorDict.dict_init_is_source C a kv vv ns, ?_⟩
-  simp only [Model.PyLCD.dictInit, TraitDict.init, Option.getD, Model.PyLCD.Ctx.kOf, Model.PyLCD.Ctx.vOf]
-  cases valPairs C.givenK C.givenV 0 a.items <;> rfl
+    (Model.PyLCD.dictInit C a (some .arg) (some .arg) ns).map (·.items) = TraitDict.init C.givenK C.givenV a.items ∧
+    Model.PyLCD.runDictObjectInit Generated.CtorD.traitDictObjectInit Generated.CtorD.traitDictInit C t owner a
+      = Model.PyLCD.dictObjectInit C t owner a ∧
+    (Model.PyLCD.dictObjectInit C t owner a).map (·.items) = TraitDict.init C.ownK C.ownV a.items ∧
+    (∀ o, Model.PyLCD.dictObjectInit C t owner a = .ok o →
+      o.keyValidator = .own ∧ o.valueValidator = .own ∧ o.notifiers = .ownAlias ∧ o.object = some owner ∧
+      o.trait = some t ∧ o.nameItems = some (t == some true)) := by
+  refine ⟨Lemmas.PyLCtorDict.dict_init_is_source C a kv vv ns, ?_,
+    Lemmas.PyLCtorDict.dict_object_init_is_source C t owner a, ?_, ?_⟩
+  · simp only [Model.PyLCD.dictInit, TraitDict.init, Option.getD, Model.PyLCD.Ctx.kOf, Model.PyLCD.Ctx.vOf]
+    cases valPairs C.givenK C.givenV 0 a.items <;> rfl
+  · simp only [Model.PyLCD.dictObjectInit, TraitDict.init]
+    cases valPairs C.ownK C.ownV 0 a.items <;> rfl
+  · intro o ho
+    simp only [Model.PyLCD.dictObjectInit] at ho
+    cases hv : valPairs C.ownK C.ownV 0 a.items with
+    | error e => simp [hv] at ho
+    | ok ps => simp only [hv, Except.ok.injEq] at ho; subst ho; simp
 
 /-! ### Tie to the source: the mutators that exist are the mutators modelled -/
 
